@@ -29,7 +29,7 @@ def chan_component(pid, tier, binpath):
     cov = {}
     samples = []
     runs = [("all", 2, "full", "ready"), ("holder", 4, "full", "ready"), ("cp", 4, "full", "ready"),
-            ("all", 1, "full", "stub")]
+            ("all", 1, "full", "stub"), ("all", 1, "full", "ready-onchain")]
     if not quick:
         runs += [("holder", 6, "full", "ready"), ("cp", 6, "full", "ready")]
     evaluations = 0
@@ -131,7 +131,7 @@ def run(pid, tier):
     nt += n
     samples += s
     # further components register themselves here
-    for modname in ("checks_node", "checks_nhand_frame", "checks_tracker_frame", "checks_lifecycle_frame"):
+    for modname in ("checks_node", "checks_nhand_frame", "checks_tracker_frame", "checks_lifecycle_frame", "checks_conc_frame"):
         try:
             mod = __import__(modname)
         except ImportError:
